@@ -31,7 +31,9 @@ def scenarios(rep):
 def sim_for(par, simcfg):
     typ = par["type"]
     sim = dict(simcfg)
-    sim["hostname"] = "router" if par["nameOK"] else "other-router"
+    # wrong hostnames: unrelated, proper prefix of the expected name, expected name as prefix, other case
+    wrong = {"other": "other-router", "prefix": "rout", "longer": "router2", "case": "ROUTER", "suffix": "xrouter"}
+    sim["hostname"] = "router" if par["nameOK"] else wrong[par.get("namevar", "other")]
     if typ in S.HTTPS_TYPES:
         sim["marker"] = par["marker"] != "absent"
         sim["ha"] = par["ha"]
@@ -136,7 +138,11 @@ def plan_sessions(prop, tier, pars):
         bad = (not p["nameOK"]) or p["marker"] == "absent" or p["ha"] == "passive"
         if prop == "C06":
             if p["verb"] == "approve":
-                jobs.append((p, "plain"))
+                if not p["nameOK"]:
+                    for nv in ("other", "prefix", "longer", "case", "suffix"):
+                        jobs.append((dict(p, namevar=nv), "plain"))
+                else:
+                    jobs.append((p, "plain"))
         elif prop == "C11":
             if p["verb"] == "compare":
                 jobs.append((p, "plain"))
